@@ -159,7 +159,7 @@ func c16Record(tier string, seed int64, emit func(interface{})) {
 			if ci > 0 && rng.Intn(5) == 0 { // suppliers laid out in groups: a blank line inside the table
 				lines = append(lines, []string{"", "   ", "\t"}[rng.Intn(3)])
 			}
-			lines = append(lines, indent+string(cch)+[]string{"        ", "        ", "\t", "\t\t", " \t", "  "}[rng.Intn(6)]+word(25, letters+" .,-&")+" ("+fmt.Sprint(1+rng.Intn(12))+"/"+fmt.Sprint(10+rng.Intn(12))+")")
+			lines = append(lines, indent+string(cch)+[]string{"        ", "        ", "\t", "\t\t", " \t", "  "}[rng.Intn(6)]+[]string{"", "", "", "", string(cch) + " ", string(cch) + " " + string(cch) + " "}[rng.Intn(6)]+word(25, letters+" .,-&")+" ("+fmt.Sprint(1+rng.Intn(12))+"/"+fmt.Sprint(10+rng.Intn(12))+")")
 		}
 		lines = append(lines, "")
 		k := rng.Intn(maxRecs + 1)
